@@ -175,10 +175,13 @@ func c14P2Pkgs() []*c14P2Pkg {
 		{field: "koalabear", tag: "koalabear", d: 3, newPerm: reflect.ValueOf(p2_koalabear.NewPermutation), newSeed: reflect.ValueOf(p2_koalabear.NewPermutationWithSeed), newMD: p2_koalabear.NewMerkleDamgardHasher, id: ghash.POSEIDON2_KOALABEAR,
 			params: [][3]int{{16, 6, 21}, {24, 6, 21}, {16, 4, 5}, {24, 2, 3},
 				// neighbours of the two instances that have an AVX-512 kernel: one of (width, full, partial) differs
-				{16, 6, 22}, {16, 6, 20}, {24, 6, 22}, {24, 6, 20}, {16, 4, 21}, {24, 8, 21}}},
+				{16, 6, 22}, {16, 6, 20}, {24, 6, 22}, {24, 6, 20}, {16, 4, 21}, {24, 8, 21},
+				// other splits of the default total number of rounds
+				{16, 8, 19}, {24, 4, 23}}},
 		{field: "babybear", tag: "babybear", d: 7, newPerm: reflect.ValueOf(p2_babybear.NewPermutation), newSeed: reflect.ValueOf(p2_babybear.NewPermutationWithSeed), newMD: p2_babybear.NewMerkleDamgardHasher, id: ghash.POSEIDON2_BABYBEAR,
 			params: [][3]int{{16, 8, 13}, {24, 8, 21}, {16, 4, 5}, {24, 2, 3},
-				{16, 8, 14}, {16, 8, 12}, {24, 8, 22}, {24, 8, 20}, {16, 6, 13}, {24, 6, 21}}},
+				{16, 8, 14}, {16, 8, 12}, {24, 8, 22}, {24, 8, 20}, {16, 6, 13}, {24, 6, 21},
+				{16, 6, 15}, {16, 10, 11}, {24, 6, 23}}},
 		{field: "goldilocks", tag: "goldilocks", d: 7, newPerm: reflect.ValueOf(p2_goldilocks.NewPermutation), newSeed: reflect.ValueOf(p2_goldilocks.NewPermutationWithSeed), newMD: p2_goldilocks.NewMerkleDamgardHasher, id: ghash.POSEIDON2_GOLDILOCKS,
 			params: [][3]int{{8, 6, 17}, {12, 6, 17}, {8, 4, 3}, {12, 2, 5}}},
 	}
